@@ -49,6 +49,8 @@ int main(int argc, char** argv) {
             std::stringstream ss;
             ss << f.rdbuf();
             dyn.LoadBinarySchema(ss.str());
+            // a long-lived object refreshes its schema: loading the same description again must change nothing
+            dyn.LoadBinarySchema(ss.str());
             have_dyn = true;
         } catch (const std::exception& e) {
             dyn_err = e.what();
